@@ -37,31 +37,29 @@ func globalNormalise(c *Ctx) {
 	// dependency order: a package after the packages it imports (c.P.All comes from go/packages in import order for
 	// ./...; sort so that the root package and ansi/log come before the widgets)
 	sort.SliceStable(shorts, func(i, j int) bool { return pkgRank(shorts[i]) < pkgRank(shorts[j]) })
-	before := len(c.Obs)
-	failed := false
-	func() {
-		defer func() {
-			if r := recover(); r != nil {
-				failed = true
-			}
-		}()
-		c15NormaliseOpt(c, shorts, refFuncNames, false)
-	}()
-	if failed || len(c.Obs) > before {
-		// The inliner could not produce a program that type-checks (or gave up): the syntax trees may be half
-		// rewritten, so the program is loaded again and analysed as it is written. The rules then see the helpers
-		// as calls; whatever they cannot judge they report themselves.
-		for _, o := range c.Obs[before:] {
-			c.counts[o.Rule]--
+	// c15NormaliseOpt re-type-checks what it wrote; when that fails it loads the program again and retries with the
+	// offending function left as written, and in the last resort leaves the program un-normalised (c15norm.go): a
+	// failed normalisation never fails the load. The rules then see the helpers as calls; whatever they cannot judge
+	// they report themselves.
+	c15GlobalShorts = nil
+	for attempt := 0; ; attempt++ {
+		bad, err := c15NormaliseTry(c, shorts, refFuncNames, false)
+		if err == nil {
+			c15GlobalShorts = shorts // a later reload repeats the pass
+			break
 		}
-		c.Obs = c.Obs[:before]
-		if p, err := Load(c.P.Repo, c.P.GOOS, loadNeedSSA); err == nil {
-			c.P = p
-			c.info("global normalisation abandoned (the inlined program did not type-check); the original text is analysed")
-		} else {
-			c.undecided("LOAD", "normalise", 0, "helper inlining failed and the program could not be reloaded: %v", err)
+		retry := bad != "" && !c15NormSkip[bad] && attempt < 4
+		if retry {
+			c15NormSkip[bad] = true
+		}
+		if !c15Reload(c, fmt.Sprintf("global normalisation produced code that does not type-check (%v)", err)) {
 			return
 		}
+		if !retry {
+			c.info("global normalisation abandoned (the inlined program did not type-check); the original text is analysed")
+			break
+		}
+		c.info("global normalisation retried with %s left as written", bad)
 	}
 	// the program changed: rebuild the side tables that were derived from the old syntax trees
 	installAccessorResolver(c.P)
